@@ -9,6 +9,9 @@
 //!   eon stim <stimulus> => <obs>            one stimulus, run to quiescence
 //! Stimuli:
 //!   online | offline
+//!   evs <online|offline> <online|offline> ...   a BURST of connection events: all of them are ready in the
+//!                        event loop before any task of srad runs (a connection reported and lost again at once,
+//!                        flapping links); for the model: the events appended to the event loop's inbox in order
 //!   ncmd rb=<0|1|x> ts=<0|1> [alias=1]
 //!   dcmd <d> ts=<0|1>
 //!   reg <d> | unreg <d> | enable <d> | disable <d> | drebirth <d>
@@ -444,13 +447,14 @@ struct DevO {
     /// calls (outside C04's quantifier: "a name being re-registered only after its previous incarnation has
     /// finished all client calls"): the per-name clauses of C04 say nothing about this name any more
     tainted: bool,
+    ever_reg: bool, // the name has been registered at some point of the case
     lc_conn: Option<bool>, // latest lifecycle hand-over on this connection: Some(true) = DBIRTH
     lc_birth: Lc, // latest lifecycle hand-over within the current node birth
 }
 
 impl Default for DevO {
     fn default() -> Self {
-        DevO { reg: false, en: false, dirty: false, tainted: false, lc_conn: None, lc_birth: Lc::None }
+        DevO { reg: false, en: false, dirty: false, tainted: false, ever_reg: false, lc_conn: None, lc_birth: Lc::None }
     }
 }
 
@@ -517,6 +521,10 @@ struct Oracle {
     sub_since_will: bool,
     trigger_since_will: bool,
     offline_pending: Option<bool>, // Some(will seen since the E:Offline)
+    /// the event loop has REPORTED a connection (returned `Online` from `poll`) since the latest will was
+    /// registered, before any cancel: from that report on the connection is established, whether or not
+    /// the node task has got round to it (subscribed) yet
+    online_reported: bool,
     // C04
     devs: BTreeMap<u32, DevO>,
     parked: BTreeMap<usize, (Kind, Option<u32>)>,
@@ -559,6 +567,7 @@ impl Oracle {
             sub_since_will: false,
             trigger_since_will: false,
             offline_pending: None,
+            online_reported: false,
             devs: BTreeMap::new(),
             parked: BTreeMap::new(),
             win: None,
@@ -724,6 +733,7 @@ impl Oracle {
                         out.count("oracle:C04-name-reused-while-previous-incarnation-live");
                     }
                     d.reg = true;
+                    d.ever_reg = true;
                     d.en = false;
                 }
             }
@@ -848,10 +858,30 @@ impl Oracle {
                                 match kind {
                                     Kind::DBirth => {
                                         *db_count.entry(*dn).or_insert(0) += 1;
-                                        if !dv.dirty && !dv.tainted && !(dv.reg && dv.en) {
+                                        // `dirty` excuses a DBIRTH that an earlier request of the same handle, still
+                                        // queued in front of a `disable` the device task has not got to yet, asked for.
+                                        // It excuses nothing for an UNREGISTERED name: `unregister_device` has returned
+                                        // (the stimulus awaits it before anything else runs), so whatever was announced
+                                        // to the device before - a node birth or rebirth, an enable, a device rebirth
+                                        // still waiting in its queues behind a busy task - is void from then on:
+                                        // "never [a DBIRTH] for a disabled or unregistered device". (A name registered
+                                        // again while its previous incarnation was live is outside the quantifier:
+                                        // `tainted`.)
+                                        if !dv.tainted && !dv.reg {
                                             out.fail(
                                                 "C04:dbirth-only-enabled-registered",
-                                                if !dv.reg { "unregistered" } else { "disabled" },
+                                                if dv.dirty { "unregistered:announced-before-unregister" } else { "unregistered" },
+                                                format!(
+                                                    "{} is a DBIRTH for device {}, which the application {}; {}",
+                                                    e.show(), dn,
+                                                    if dv.ever_reg { "unregistered before this hand-over (unregister_device had returned) and has not registered again" } else { "never registered" },
+                                                    here
+                                                ),
+                                            );
+                                        } else if !dv.dirty && !dv.tainted && !dv.en {
+                                            out.fail(
+                                                "C04:dbirth-only-enabled-registered",
+                                                "disabled",
                                                 format!("{}; {}", e.show(), here),
                                             );
                                         }
@@ -997,6 +1027,7 @@ impl Oracle {
                         self.why = "after-loss";
                         self.lost = true;
                         self.sub_since_will = false;
+                        self.online_reported = false;
                         self.trigger_since_will = false;
                         if self.offline_pending.is_some() {
                             self.offline_pending = Some(true);
@@ -1008,6 +1039,21 @@ impl Oracle {
                     if let Some(seen) = self.offline_pending.take() {
                         if !seen && self.sub_since_will {
                             out.fail("C03:new-will-before-next-poll", "offline", format!("the event loop is polled again after an established connection was lost and no new will was registered; {}", here));
+                        } else if !seen && self.online_reported && !self.cancelled {
+                            // the connection was reported by the event loop (`Online`) and lost (`Offline`) before
+                            // the node task had subscribed on it - both events ready together, or the node task busy
+                            // (held in `on_ncmd`, waiting for the client). It is an established connection all the
+                            // same ("each time an established connection is lost"; the quantifier: "all sequences of
+                            // Online/Offline events ... and any client latency"): bdSeq + 1 before the next poll.
+                            // Not demanded once a cancel has been requested (the node then ignores a queued Online).
+                            out.fail(
+                                "C03:new-will-before-next-poll",
+                                "offline-before-online-handled",
+                                format!(
+                                    "the event loop reported a connection (E:Online) and then its loss (E:Offline) before the node task had handled the Online; it is polled again and no new will (bdSeq {:?} + 1) was registered in between; {}",
+                                    self.will_bd, here
+                                ),
+                            );
                         }
                     }
                 }
@@ -1018,6 +1064,9 @@ impl Oracle {
                         }
                         self.polled_offline_last = false;
                         self.bd_at_online = self.will_bd;
+                        if !self.cancelled {
+                            self.online_reported = true;
+                        }
                         if !self.sub_since_will {
                             self.online_pending = true;
                         }
@@ -1137,7 +1186,9 @@ impl Oracle {
         }
         // C04 "exactly when": decidable on lines that start and end fully quiescent (nothing
         // parked, no callback held) before any cancel
-        if c.qs && c.qe && !cancelled0 && !self.cancelled && !x0 {
+        // (an `evs` line is several stimuli: a connection can come AND go within it, so the count of one
+        // line is not determined by where the line ends; the per-event clauses and the at-rest clauses apply)
+        if c.qs && c.qe && !cancelled0 && !self.cancelled && !x0 && verb != "evs" {
             let mut exp_db: BTreeMap<u32, u32> = BTreeMap::new();
             let mut exp_dd: BTreeMap<u32, u32> = BTreeMap::new();
             if !nodev {
@@ -1593,6 +1644,17 @@ impl Sess {
             }
             "offline" => {
                 self.feeder.push(Event::Offline);
+            }
+            // a burst of connection events, all ready before any task of srad runs (no await in between)
+            "evs" => {
+                assert!(w.len() >= 2, "evs needs at least one event");
+                for e in &w[1..] {
+                    match *e {
+                        "online" => self.feeder.push(Event::Online),
+                        "offline" => self.feeder.push(Event::Offline),
+                        x => panic!("bad event {} in evs", x),
+                    };
+                }
             }
             "ncmd" | "dcmd" if self.inject.is_some() => {
                 let ev = self.inject.take().unwrap();
@@ -2068,6 +2130,47 @@ fn scripted(out: &mut Out) {
         // a very long one
         go(out, "c04-toggle-burst-behind-parked-dbirth-330", &["online", "reg 1", "rule DBIRTH park 1", "enable 1"], toggles(165, "disable 1"), &after);
     }
+    // C04 "never for an unregistered device": something that asks the device for a DBIRTH - a node rebirth
+    // (manual / NCMD), a reconnect, a device rebirth, an enable - is announced to a device whose task is BUSY
+    // (held in `on_dcmd`, or inside a DBIRTH the client has not answered), the application unregisters the
+    // device before the task gets back to its queues, then the task is let go: no DBIRTH may come out
+    run(out, 0, "c04-unregister-behind-held-callback-after-node-rebirth", &[
+        "online", "reg 1", "enable 1", "reg 2", "enable 2", "cbpark 1", "dcmd 1 ts=1", "nrebirth", "unreg 1", "cbrelease 1",
+        "pub dev 1 try n=1", "pub dev 2 try n=1", "nrebirth", "reg 1", "enable 1", "pub dev 1 try n=1",
+    ]);
+    run(out, 0, "c04-unregister-behind-held-callback-after-ncmd-rebirth", &[
+        "online", "reg 1", "enable 1", "cbpark 1", "dcmd 1 ts=1", "ncmd rb=1 ts=1", "ncmd rb=1 ts=1", "unreg 1", "nrebirth", "cbrelease 1",
+        "reg 1", "enable 1", "pub dev 1 try n=1",
+    ]);
+    run(out, 0, "c04-unregister-behind-parked-dbirth-after-node-rebirth", &[
+        "online", "reg 1", "rule DBIRTH park 1", "enable 1", "nrebirth", "unreg 1", "resolve-oldest ok", "nrebirth", "reg 1", "enable 1",
+        "pub dev 1 try n=1",
+    ]);
+    run(out, 0, "c04-unregister-behind-held-callback-after-reconnect", &[
+        "online", "reg 1", "enable 1", "cbpark 1", "dcmd 1 ts=1", "offline", "online", "nrebirth", "unreg 1", "cbrelease 1", "reg 1", "enable 1",
+    ]);
+    run(out, 0, "c04-unregister-behind-held-callback-after-handle-requests", &[
+        "online", "reg 1", "enable 1", "cbpark 1", "dcmd 1 ts=1", "drebirth 1", "disable 1", "enable 1", "nrebirth", "drebirth 1", "unreg 1",
+        "cbrelease 1", "nrebirth",
+    ]);
+    // C03: a connection that is reported and lost again before the node task has handled its Online - both
+    // events ready when the event loop polls (`evs`), or the node task busy (held in `on_ncmd`) - is an
+    // established connection that was lost: will bdSeq + 1 before the next poll, and the NBIRTH of the next
+    // connection carries it
+    run(out, 0, "c03-connection-lost-before-online-handled", &[
+        "evs online offline", "online", "pub node try n=1", "offline", "evs online offline online", "nrebirth", "pub node try n=1",
+        "evs offline online", "evs offline offline online online offline", "evs offline", "evs online", "evs offline online offline",
+        "online", "pub node try n=1", "cancel", "adv 1100",
+    ]);
+    run(out, 0, "c03-connection-lost-behind-held-ncmd-callback", &[
+        "cbpark node", "ncmd rb=x ts=1", "online", "offline", "cbrelease node", "online", "pub node try n=1", "offline",
+        "cbpark node", "ncmd rb=x ts=1", "evs online offline online", "cbrelease node", "pub node try n=1", "evs offline online offline",
+        "online", "pub node try n=1",
+    ]);
+    run(out, 0, "c03-connection-bursts-with-failed-subscribe-and-birth", &[
+        "rule SUB rej 1", "evs online offline", "rule NBIRTH rej 1", "evs online offline", "rule SUB park 1", "evs online offline online",
+        "resolve-oldest ok", "rule NBIRTH park 1", "evs offline online offline", "resolve-oldest err", "online", "pub node try n=1",
+    ]);
     // a held node callback blocks the node's state progression: events queue up behind it
     run(out, 0, "held-ncmd-callback", &[
         "online", "reg 1", "enable 1", "cbpark node", "ncmd rb=x ts=1", "nrebirth", "pub node try n=1", "offline", "pub node try n=1", "online",
@@ -2507,7 +2610,194 @@ fn burst_case(out: &mut Out, rng: &mut Rng, size: u64) {
     c.finish();
 }
 
-pub const RULE: &str = "edge-node schedules through the real EoN / NodeHandle / DeviceHandle (paused tokio time, mock client whose every call the harness accepts, rejects or parks and later resolves, scripted event loop, recording managers whose callbacks can be held): (a) scripted scenarios per clause of C01-C04/C20 incl. the suspected defects; (b) every stimulus sequence of length <= L over a 14-symbol alphabet from a fresh node and from a birthed node with a birthed device; (c) random schedules of 20-200 stimuli with 1-3 devices, client policies, duplicate / early Offline, NCMD rebirths with cooldown 0 / 5 s / longer than the run, cancels at random points, and long runs wrapping seq and bdSeq; (d) request bursts: 17-40 (a few 300-420) enable / disable / rebirth requests (and a final unregister) through device handles while a device task or the node task is held up (parked DBIRTH / DDEATH / NBIRTH, held on_dcmd / on_ncmd callback), strictly toggling or random, with publishes, DCMDs, node rebirths and connection losses in between, then released. Each line = one stimulus + everything observed until quiescence. Non-trivial = at least two stimuli; distinct = distinct request-line sequences (hashed).";
+/// (e) connection bursts: `evs` lines (2-5 Online / Offline events ready together) mixed with single connection
+/// events, node publishes and rebirths, SUB / NBIRTH refused or parked and resolved later, the node task held in
+/// `on_ncmd`, now and then a cancel at the end
+fn conn_burst_case(out: &mut Out, rng: &mut Rng) {
+    let mut c = Case::begin(out, 0);
+    if rng.chance(1, 2) {
+        c.stim("reg 1");
+        c.stim("enable 1");
+    }
+    let len = rng.range(8, 30);
+    for _ in 0..len {
+        match rng.below(100) {
+            0..=34 => {
+                let k = rng.range(2, 5);
+                let mut s = String::from("evs");
+                for _ in 0..k {
+                    s.push(' ');
+                    s.push_str(*rng.pick(&["online", "offline"]));
+                }
+                c.out.count("conn-burst:evs");
+                c.stim(&s);
+            }
+            35..=44 => {
+                c.stim("online");
+            }
+            45..=52 => {
+                c.stim("offline");
+            }
+            53..=60 => {
+                c.stim(&format!("pub node {} n=1", rng.pick(&["try", "blk"])));
+            }
+            61..=66 => {
+                c.stim("nrebirth");
+            }
+            67..=72 => {
+                c.stim("ncmd rb=1 ts=1");
+            }
+            73..=78 => {
+                c.stim(&format!("rule {} {} 1", rng.pick(&["SUB", "NBIRTH"]), rng.pick(&["rej", "park"])));
+            }
+            79..=86 => {
+                let ok = rng.chance(3, 4);
+                c.resolve_oldest(ok);
+            }
+            87..=91 => {
+                if !c.sess.armed_callbacks().iter().any(|x| x == "node") {
+                    c.stim("cbpark node");
+                    c.stim("ncmd rb=x ts=1");
+                }
+            }
+            92..=96 => {
+                if c.sess.armed_callbacks().iter().any(|x| x == "node") {
+                    c.stim("cbrelease node");
+                }
+            }
+            _ => {
+                c.stim("pub dev 1 try n=1");
+            }
+        }
+    }
+    c.drain();
+    c.stim("online");
+    c.stim("pub node try n=1");
+    if rng.chance(1, 4) {
+        c.stim("cancel");
+        c.stim("adv 1100");
+    }
+    c.out.count("case:conn-burst");
+    c.finish();
+}
+
+/// every burst of 1..=`maxlen` Online / Offline events, from a fresh node, from an established connection and
+/// behind a node task held in `on_ncmd`; then the next connection and a publish on it
+fn conn_burst_exhaustive(out: &mut Out, maxlen: usize) {
+    for prefix in 0..3 {
+        for len in 1..=maxlen {
+            for bits in 0..(1u32 << len) {
+                let mut c = Case::begin(out, 0);
+                match prefix {
+                    1 => {
+                        c.stim("online");
+                    }
+                    2 => {
+                        c.stim("cbpark node");
+                        c.stim("ncmd rb=x ts=1");
+                    }
+                    _ => {}
+                }
+                let mut s = String::from("evs");
+                for i in 0..len {
+                    s.push_str(if bits >> i & 1 == 1 { " online" } else { " offline" });
+                }
+                c.stim(&s);
+                c.drain();
+                c.stim("online");
+                c.stim("pub node try n=1");
+                c.out.count("case:conn-burst-exhaustive");
+                c.finish();
+            }
+        }
+    }
+    out.exhaustive.push(format!(
+        "every burst (`evs`) of 1..={} Online / Offline events ready together, from a fresh node, from an established connection and behind a node task held in on_ncmd, followed by the next Online and a publish",
+        maxlen
+    ));
+}
+
+/// (f) unregister behind a busy device task: a device task is held up (in `on_dcmd`, inside a DBIRTH the client
+/// has not answered) or the node task is (in `on_ncmd`), 1-3 things that ask the device for a DBIRTH are announced
+/// (node rebirth manual / NCMD, reconnect, device rebirth, enable, disable + enable), the application unregisters
+/// the device (sometimes registers the name again at once: the property's proviso fails, nothing is demanded),
+/// more node rebirths, everything is released; then the name is registered and enabled again at rest
+fn unreg_behind_case(out: &mut Out, rng: &mut Rng) {
+    let mut c = Case::begin(out, 0);
+    let ndev = rng.range(1, 2);
+    c.stim("online");
+    for d in 1..=ndev {
+        c.stim(&format!("reg {}", d));
+        if rng.chance(5, 6) {
+            c.stim(&format!("enable {}", d));
+        }
+    }
+    let t = rng.range(1, ndev);
+    let hold = rng.below(4);
+    c.out.count(&format!("unreg-behind:hold:{}", ["dcmd-callback", "dbirth", "ncmd-callback", "none"][hold as usize]));
+    match hold {
+        0 => {
+            c.stim(&format!("cbpark {}", t));
+            c.stim(&format!("dcmd {} ts=1", t));
+        }
+        1 => {
+            c.stim("rule DBIRTH park 1");
+            c.stim(&format!("{} {}", rng.pick(&["drebirth", "enable"]), t));
+        }
+        2 => {
+            c.stim("cbpark node");
+            c.stim("ncmd rb=x ts=1");
+        }
+        _ => {}
+    }
+    for _ in 0..rng.range(1, 3) {
+        match rng.below(8) {
+            0 | 1 | 2 => {
+                c.stim("nrebirth");
+            }
+            3 | 4 => {
+                c.stim("ncmd rb=1 ts=1");
+            }
+            5 => {
+                c.stim("offline");
+                c.stim("online");
+            }
+            6 => {
+                c.stim(&format!("{} {}", rng.pick(&["drebirth", "enable"]), t));
+            }
+            _ => {
+                c.stim(&format!("disable {}", t));
+                c.stim(&format!("enable {}", t));
+            }
+        }
+    }
+    c.stim(&format!("unreg {}", t));
+    if rng.chance(1, 3) {
+        c.stim(if rng.chance(1, 2) { "nrebirth" } else { "ncmd rb=1 ts=1" });
+    }
+    if rng.chance(1, 6) {
+        c.out.count("unreg-behind:name-reused-at-once");
+        c.stim(&format!("reg {}", t));
+        c.stim(&format!("enable {}", t));
+    }
+    if rng.chance(1, 5) {
+        c.resolve_oldest(false);
+    }
+    c.drain();
+    for d in 1..=ndev {
+        c.stim(&format!("pub dev {} try n=1", d));
+    }
+    c.stim(if rng.chance(1, 2) { "nrebirth" } else { "ncmd rb=1 ts=1" });
+    if !c.sess.registered().contains(&(t as u32)) {
+        c.stim(&format!("reg {}", t));
+    }
+    c.stim(&format!("enable {}", t));
+    c.stim(&format!("pub dev {} try n=1", t));
+    c.out.count("case:unreg-behind");
+    c.finish();
+}
+
+pub const RULE: &str = "edge-node schedules through the real EoN / NodeHandle / DeviceHandle (paused tokio time, mock client whose every call the harness accepts, rejects or parks and later resolves, scripted event loop, recording managers whose callbacks can be held): (a) scripted scenarios per clause of C01-C04/C20 incl. the suspected defects; (b) every stimulus sequence of length <= L over a 14-symbol alphabet from a fresh node and from a birthed node with a birthed device; (c) random schedules of 20-200 stimuli with 1-3 devices, client policies, duplicate / early Offline, NCMD rebirths with cooldown 0 / 5 s / longer than the run, cancels at random points, and long runs wrapping seq and bdSeq; (d) request bursts: 17-40 (a few 300-420) enable / disable / rebirth requests (and a final unregister) through device handles while a device task or the node task is held up (parked DBIRTH / DDEATH / NBIRTH, held on_dcmd / on_ncmd callback), strictly toggling or random, with publishes, DCMDs, node rebirths and connection losses in between, then released; (e) connection bursts: `evs` lines = 2-5 Online / Offline events ready in the event loop together (every burst of length <= 4 from a fresh node, an established connection and behind a held on_ncmd; random mixes with single events, publishes, rebirths, refused / parked SUB and NBIRTH, cancels); (f) unregister behind a busy task: node rebirths (manual / NCMD), reconnects, device rebirths and enables announced to a device whose task is held (on_dcmd, unanswered DBIRTH) or behind a held node task, then unregister_device, more rebirths, release, and the name registered again at rest (1 in 6 at once: proviso fails, exempt). Each line = one stimulus + everything observed until quiescence. Non-trivial = at least two stimuli; distinct = distinct request-line sequences (hashed).";
 
 
 /// The node's rebirth cooldown under the UNMOCKED wall clock (the verif-hooks mock shadows the clock reading
@@ -2588,6 +2878,16 @@ pub fn run(args: &Args, out: &mut Out) -> &'static str {
         let mut r = rng.fork();
         let size = r.range(300, 420);
         burst_case(out, &mut r, size);
+    }
+    // (e) connection bursts, (f) unregister behind a busy task (after everything else, as above)
+    conn_burst_exhaustive(out, if th { 5 } else { 4 });
+    for _ in 0..(if th { 600 } else { 120 }) {
+        let mut r = rng.fork();
+        conn_burst_case(out, &mut r);
+    }
+    for _ in 0..(if th { 600 } else { 120 }) {
+        let mut r = rng.fork();
+        unreg_behind_case(out, &mut r);
     }
     RULE
 }
